@@ -383,6 +383,42 @@ def disable_from_callback_round():
     return obs
 
 
+def stale_dispatch_round():
+    """SELECTED; the application's handler is slow; two frames arrive in one segment and the peer closes while the first is being
+    handled: the second one belongs to the connection that ended - nothing of it may show on the next connection."""
+    rig = protorig.HsmsRig(active=False, session_id=0)
+    obs = {}
+    try:
+        rig.proto.enable()
+        rig.conn.connect()
+        rig.settle()
+        rig.conn.feed(frame_of(1, 0x41))
+        rig.settle()
+        got = []
+
+        def slow(data):
+            got.append(data["message"].header.system)
+            time.sleep(0.4)
+
+        rig.proto.events.message_received += slow
+        rig.conn.feed(frame_of(0, 0x10, 1, 1, True) + frame_of(0, 0x11, 1, 1, True))
+        time.sleep(0.1)
+        common.with_deadline(rig.conn.peer_close, 20.0)
+        time.sleep(0.6)
+        n0 = len(rig.conn.sent)
+        rig.conn.connect()
+        time.sleep(0.3)
+        rig.settle()
+        obs["written_on_the_new_connection_unprompted"] = b"".join(rig.conn.sent[n0:]).hex()
+        rig.conn.feed(frame_of(1, 0x42))
+        rig.settle()
+        time.sleep(0.5)
+        obs["handed_to_the_application"] = list(got)
+    finally:
+        rig.stop()
+    return obs
+
+
 def disable_while_connect_succeeds_round():
     """The same moment on an ACTIVE endpoint: nobody listens, the connect thread retries; disable() sees the thread alive, the peer
     starts listening, the next attempt succeeds and the thread ends, then disable() asks it to stop.  disable() must return."""
@@ -702,6 +738,9 @@ def run(tier, replay=None):
                 report.violation({"kind": "counterexample", "what": "one run of _process_send_queue left a queued block unresolved although the connection answered every write", **qraws[i]}, True, tag="queue")
                 break
             queue_model_bad.append((i, m))
+    sd_obs = common.guarded(stale_dispatch_round, "a frame still queued for dispatch when the peer closes, then a new connection", awedged, 60.0)
+    if sd_obs is not None and (sd_obs.get("written_on_the_new_connection_unprompted") or sd_obs.get("handed_to_the_application") != [0x10]):
+        report.violation({"kind": "counterexample", "what": "a frame of the connection that ended was handled on the next connection", **sd_obs}, True, tag="staledispatch")
     race3_obs = common.guarded(disable_races_peer_close_round, "disable() racing with the peer's close, then enable() and a new connection", awedged, 120.0)
     if race3_obs is not None and not (race3_obs.get("first_selected") and race3_obs.get("served_after_enable") and not race3_obs.get("final_disable_hung")):
         report.violation({"kind": "counterexample", "what": "after a disable() that raced with the peer's close, the connection that followed the next enable() was not served", **race3_obs}, True, tag="staleflag")
@@ -762,6 +801,7 @@ def run(tier, replay=None):
     cov["disable_while_peer_connects"] = race_obs
     cov["disable_while_connect_succeeds"] = race2_obs
     cov["disable_races_peer_close"] = race3_obs
+    cov["stale_dispatch_queue"] = sd_obs
     cov["disable_from_callback"] = cb_obs
     cov["tcp_rounds"] = {"count": len(tcp_obs), "max_disable_seconds": max([o.get("disable_seconds", 0) for o in tcp_obs] + [o.get("final_disable_seconds", 0) for o in tcp_obs] + [0])}
     cov["distribution"] = {"streams": dict(Counter(c[0] for c in cases)), "ended_by": dict(Counter(c[4] for c in cases)), "selected": dict(Counter(str(c[3]) for c in cases))}
